@@ -200,6 +200,10 @@ theorem evalOp_tags {m : Note} (hc : copy m = m) (ts : List String) :
     evalOp m (.addTags ts) = .ok { m with tags := unionTags m.tags ts } := by
   simp [evalOp, hc]
 
+theorem evalOp_setAmp {m : Note} (hc : copy m = m) (k : Int) :
+    evalOp m (.setAmp k) = .ok { m with amp := (k : Rat) } := by
+  simp [evalOp, hc]
+
 /-- the duration segment: from duration 1 to `d` (table name: the suffix multiplies; otherwise
 `augment`, which re-limits the product) -/
 theorem seg_dur {m : Note} (hc : copy m = m) (h1 : m.dur = 1) (d : Rat) (hd : Den d) :
@@ -231,24 +235,23 @@ def InLibrary (n : Note) : Prop := LIBRARY_NOTES.lookup (symName n) = some (base
 
 instance (n : Note) : Decidable (InLibrary n) := by unfold InLibrary; exact inferInstance
 
-/-- closed form of `eval(str(n))` on the current code, for a note over a library symbol with a
-duration inside the resolution: what is kept, what is dropped (octave of `x`; mode and
-accidental of `d` and `x`; dynamics of `d`; everything but duration and tags of a rest), and the
-figure `n` read as the zero duration -/
+/-- amplitude the text form stands for: 0 for the figure `n` (`.set_amp(0)`), the default for `mf`
+(nothing printed), else the one the dynamics property of that name sets -/
+def canonAmp (f : String) : Rat := if f = "n" then 0 else if f = "mf" then 66 else dynAmp f
+
+/-- closed form of `eval(str(n))`, for a note over a library symbol with a duration inside the
+resolution: every compared field is kept; the amplitude becomes the one of its figure; a rest /
+continuation keeps duration and tags (it has nothing else) -/
 def rereadNote (n : Note) : Note :=
   if n.kind = .r ∨ n.kind = .l then restNote n.kind n.dur n.tags
-  else
-    let printsAmp : Prop := n.kind.isNote = true ∨ n.kind = .x
-    { kind := n.kind, val := n.val
-      oct := if n.kind.isNote = true ∨ n.kind = .d then n.oct else 0
-      dur := if printsAmp ∧ Eq.ampFigure n.amp = "n" then n.dur * 0 else n.dur
-      mode := if n.kind.isNote then n.mode else none
-      acc := if n.kind.isNote then n.acc else none
-      amp := if printsAmp ∧ Eq.ampFigure n.amp ≠ "mf" ∧ Eq.ampFigure n.amp ≠ "n" then dynAmp (Eq.ampFigure n.amp) else 66
-      tags := n.tags }
+  else { kind := n.kind, val := n.val, oct := n.oct, dur := n.dur, mode := n.mode, acc := n.acc,
+         amp := canonAmp (Eq.ampFigure n.amp), tags := n.tags }
 
 theorem den_one : Den (1 : Rat) := by decide
-theorem den_mul_zero (q : Rat) : Den (q * 0) := by rw [mul_zero]; exact den_zero
+theorem sounding_cases {k : Kind} (h : Sounding k) : k.isNote = true ∨ k = .x ∨ k = .d := by
+  cases k <;> simp_all [Sounding, Kind.isNote]
+
+theorem sounding_printed {k : Kind} (h : Sounding k) : printed k := h
 
 theorem isNote_movedByO_or_rel (k : Kind) (h : k.isNote = true) : movedByO k = !k.isRelative := by
   cases k <;> simp_all [Kind.isNote, movedByO, Kind.isRelative]
@@ -262,7 +265,7 @@ theorem reread_rest (n : Note) (hk : n.kind = .r ∨ n.kind = .l) (hd : Den n.du
   have hops : noteOps ⟨kind, val, oct, dur, mode, acc, amp, tags, tempo, pedal⟩
       = durOps dur ++ tagOps ⟨kind, val, oct, dur, mode, acc, amp, tags, tempo, pedal⟩ := by
     rcases hk with rfl | rfl <;> cases mode <;> cases acc <;>
-      simp [noteOps, drumOctOps, octOps, modeOps, accOps, ampOps, Kind.isNote]
+      simp [noteOps, drumOctOps, octOps, modeOps, accOps, ampOps, Kind.isNote, printed]
   have hbase : base ⟨kind, val, oct, dur, mode, acc, amp, tags, tempo, pedal⟩ = restNote kind 1 [] := by
     simp [base, hk]
   have hre : rereadNote ⟨kind, val, oct, dur, mode, acc, amp, tags, tempo, pedal⟩ = restNote kind dur tags := by
@@ -285,25 +288,19 @@ theorem reread_rest (n : Note) (hk : n.kind = .r ∨ n.kind = .l) (hd : Den n.du
 /-- the notes reached after each segment of the chain of a sounding note -/
 def st1 (k : Kind) (v o : Int) : Note := { kind := k, val := v, oct := if k = .d then o else 0, dur := 1 }
 def st2 (k : Kind) (v o : Int) (d : Rat) : Note := { kind := k, val := v, oct := if k = .d then o else 0, dur := d }
-def st3 (k : Kind) (v o : Int) (d : Rat) : Note :=
-  { kind := k, val := v, oct := if k.isNote = true ∨ k = .d then o else 0, dur := d }
-def st4 (k : Kind) (v o : Int) (d : Rat) (md : Option Mode) : Note :=
-  { kind := k, val := v, oct := if k.isNote = true ∨ k = .d then o else 0, dur := d, mode := if k.isNote then md else none }
+def st3 (k : Kind) (v o : Int) (d : Rat) : Note := { kind := k, val := v, oct := o, dur := d }
+def st4 (k : Kind) (v o : Int) (d : Rat) (md : Option Mode) : Note := { kind := k, val := v, oct := o, dur := d, mode := md }
 def st5 (k : Kind) (v o : Int) (d : Rat) (md : Option Mode) (ac : Option Acc) : Note :=
-  { kind := k, val := v, oct := if k.isNote = true ∨ k = .d then o else 0, dur := d, mode := if k.isNote then md else none,
-    acc := if k.isNote then ac else none }
+  { kind := k, val := v, oct := o, dur := d, mode := md, acc := ac }
 def st6 (k : Kind) (v o : Int) (d : Rat) (md : Option Mode) (ac : Option Acc) (amp : Rat) : Note :=
-  { kind := k, val := v, oct := if k.isNote = true ∨ k = .d then o else 0
-    dur := if (k.isNote = true ∨ k = .x) ∧ Eq.ampFigure amp = "n" then d * 0 else d
-    mode := if k.isNote then md else none
-    acc := if k.isNote then ac else none
-    amp := if (k.isNote = true ∨ k = .x) ∧ Eq.ampFigure amp ≠ "mf" ∧ Eq.ampFigure amp ≠ "n" then dynAmp (Eq.ampFigure amp) else 66 }
+  { kind := k, val := v, oct := o, dur := d, mode := md, acc := ac, amp := canonAmp (Eq.ampFigure amp) }
 
 theorem reread_sounding (n : Note) (hk : Sounding n.kind) (hd : Den n.dur) (hnd : n.tags.Nodup) :
     evalOps (base n) (noteOps n) = .ok (rereadNote n) := by
   obtain ⟨kind, val, oct, dur, mode, acc, amp, tags, tempo, pedal⟩ := n
   simp only at hk hd hnd
   have hkr : ¬ (kind = .r ∨ kind = .l) := by unfold Sounding at hk; tauto
+  have hpr : printed kind := hk
   have hbase : base ⟨kind, val, oct, dur, mode, acc, amp, tags, tempo, pedal⟩ = { kind := kind, val := val, oct := 0, dur := 1 } := by
     simp [base, hkr]
   rw [hbase]
@@ -313,12 +310,7 @@ theorem reread_sounding (n : Note) (hk : Sounding n.kind) (hd : Den n.dur) (hnd 
   have c3 : copy (st3 kind val oct dur) = _ := copy_id hk hd
   have c4 : copy (st4 kind val oct dur mode) = _ := copy_id hk hd
   have c5 : copy (st5 kind val oct dur mode acc) = _ := copy_id hk hd
-  have c6 : copy (st6 kind val oct dur mode acc amp) = st6 kind val oct dur mode acc amp := by
-    apply copy_id hk
-    show Den (if (kind.isNote = true ∨ kind = .x) ∧ Eq.ampFigure amp = "n" then dur * 0 else dur)
-    split
-    · exact den_mul_zero dur
-    · exact hd
+  have c6 : copy (st6 kind val oct dur mode acc amp) = _ := copy_id hk hd
   -- 1 drum octave
   have s1 : evalOps { kind := kind, val := val, oct := 0, dur := 1 }
       (drumOctOps ⟨kind, val, oct, dur, mode, acc, amp, tags, tempo, pedal⟩) = .ok (st1 kind val oct) := by
@@ -337,29 +329,37 @@ theorem reread_sounding (n : Note) (hk : Sounding n.kind) (hd : Den n.dur) (hnd 
       simp [evalOps, st1, this]
   -- 2 duration
   have s2 : evalOps (st1 kind val oct) (durOps dur) = .ok (st2 kind val oct dur) := seg_dur c1 rfl dur hd
-  -- 3 octave
+  -- 3 octave: `.o(k)` for the non-relative is_note kinds and x, `.oabs(k)` for the relative ones
   have s3 : evalOps (st2 kind val oct dur) (octOps ⟨kind, val, oct, dur, mode, acc, amp, tags, tempo, pedal⟩)
       = .ok (st3 kind val oct dur) := by
     unfold octOps
     split
     · rename_i h
-      have hn : kind.isNote = true := h.2
-      have hnd' : kind ≠ .d := by intro hh; subst hh; simp [Kind.isNote] at hn
+      have hnx : kind.isNote = true ∨ kind = .x := h.2
+      have hnd' : kind ≠ .d := by
+        intro hh; subst hh; rcases hnx with h1 | h1
+        · simp [Kind.isNote] at h1
+        · exact absurd h1 (by decide)
       by_cases hrel : kind.isRelative = true
       · simp only [hrel, Bool.not_true, Bool.false_eq_true, ↓reduceIte]
         rw [evalOps_single, evalOp_oabs c2]
-        simp [st3, st2, hn, hnd']
+        simp [st3, st2, hnd']
       · have hrel' : kind.isRelative = false := by simpa using hrel
         simp only [hrel', Bool.not_false, ↓reduceIte]
         rw [evalOps_single, evalOp_o c2]
-        have hm : movedByO kind = true := by rw [isNote_movedByO_or_rel kind hn, hrel']; rfl
-        simp [st3, st2, hn, hnd', hm]
+        have hm : movedByO kind = true := by
+          rcases hnx with h1 | h1
+          · rw [isNote_movedByO_or_rel kind h1, hrel']; rfl
+          · subst h1; rfl
+        simp [st3, st2, hnd', hm]
     · rename_i h
       have : st3 kind val oct dur = st2 kind val oct dur := by
-        by_cases hn : kind.isNote = true
-        · have ho : oct = 0 := by by_contra ho; exact h ⟨ho, hn⟩
-          simp [st3, st2, hn, ho]
-        · by_cases hkd : kind = .d <;> simp [st3, st2, hn, hkd]
+        rcases sounding_cases hk with hn | hx | hdd
+        · have ho : oct = 0 := by by_contra ho; exact h ⟨ho, Or.inl hn⟩
+          simp [st3, st2, ho]
+        · have ho : oct = 0 := by by_contra ho; exact h ⟨ho, Or.inr hx⟩
+          simp [st3, st2, ho]
+        · simp [st3, st2, hdd]
       simp [evalOps, this]
   -- 4 mode
   have s4 : evalOps (st3 kind val oct dur) (modeOps ⟨kind, val, oct, dur, mode, acc, amp, tags, tempo, pedal⟩)
@@ -368,11 +368,9 @@ theorem reread_sounding (n : Note) (hk : Sounding n.kind) (hd : Den n.dur) (hnd 
     cases mode with
     | none => simp [evalOps, st4, st3]
     | some md =>
-        by_cases hn : kind.isNote = true
-        · simp only [hn, ↓reduceIte]
-          rw [evalOps_single, evalOp_attr c3, evalAttr_mode]
-          simp [st4, st3, hn]
-        · simp [evalOps, st4, st3, hn]
+        simp only [hpr, ↓reduceIte]
+        rw [evalOps_single, evalOp_attr c3, evalAttr_mode]
+        simp [st4, st3]
   -- 5 accidental
   have s5 : evalOps (st4 kind val oct dur mode) (accOps ⟨kind, val, oct, dur, mode, acc, amp, tags, tempo, pedal⟩)
       = .ok (st5 kind val oct dur mode acc) := by
@@ -380,28 +378,25 @@ theorem reread_sounding (n : Note) (hk : Sounding n.kind) (hd : Den n.dur) (hnd 
     cases acc with
     | none => simp [evalOps, st5, st4]
     | some a =>
-        by_cases hn : kind.isNote = true
-        · simp only [hn, ↓reduceIte]
-          rw [evalOps_single, evalOp_attr c4, evalAttr_acc]
-          simp [st5, st4, hn]
-        · simp [evalOps, st5, st4, hn]
+        simp only [hpr, ↓reduceIte]
+        rw [evalOps_single, evalOp_attr c4, evalAttr_acc]
+        simp [st5, st4]
   -- 6 dynamics
   have s6 : evalOps (st5 kind val oct dur mode acc) (ampOps ⟨kind, val, oct, dur, mode, acc, amp, tags, tempo, pedal⟩)
       = .ok (st6 kind val oct dur mode acc amp) := by
     unfold ampOps
-    by_cases hpa : kind.isNote = true ∨ kind = .x
-    · simp only [hpa, ↓reduceIte]
+    have hpa : kind.isNote = true ∨ kind = .x ∨ kind = .d := sounding_cases hk
+    simp only [hpa, ↓reduceIte]
+    by_cases hn : Eq.ampFigure amp = "n"
+    · simp only [hn, ↓reduceIte]
+      rw [evalOps_single, evalOp_setAmp c5]
+      simp [st6, st5, canonAmp, hn]
+    · simp only [hn, ↓reduceIte]
       by_cases hmf : Eq.ampFigure amp = "mf"
-      · simp [evalOps, st6, st5, hmf]
+      · simp [evalOps, st6, st5, canonAmp, hmf]
       · simp only [ne_eq, hmf, not_false_eq_true, ↓reduceIte]
-        rw [evalOps_single, evalOp_attr c5]
-        by_cases hn : Eq.ampFigure amp = "n"
-        · rw [hn, evalAttr_n]
-          simp [st6, st5, hpa, hn]
-        · rw [evalAttr_figure _ _ (ampFigure_mem amp) hmf hn]
-          simp [st6, st5, hpa, hn, hmf]
-    · simp only [hpa, ↓reduceIte]
-      simp [evalOps, st6, st5, hpa]
+        rw [evalOps_single, evalOp_attr c5, evalAttr_figure _ _ (ampFigure_mem amp) hmf hn]
+        simp [st6, st5, canonAmp, hn, hmf]
   -- 7 tags
   have s7 : evalOps (st6 kind val oct dur mode acc amp) (tagOps ⟨kind, val, oct, dur, mode, acc, amp, tags, tempo, pedal⟩)
       = .ok (rereadNote ⟨kind, val, oct, dur, mode, acc, amp, tags, tempo, pedal⟩) := by
